@@ -47,7 +47,7 @@ pub fn gen_project(g: &mut Gen, unique_names: bool) -> Project {
     let has_alias = g.rng.chance(1, 2);
     let (mut into, mut from) = (Vec::new(), Vec::new());
     if has_alias {
-        for _ in 0..g.rng.below(3) { into.push(format!("{} > {}", ["§", "sh", "ñ", "x"][g.rng.below(4)], ["ʃ", "ɲ", "x", "a:[+long]"][g.rng.below(4)])); }
+        for _ in 0..g.rng.below(3) { into.push(if g.rng.chance(1, 4) { ["@{acute} > [+stress]", "@{grave} > [+secstress]", "@{macron}a > a:[+long]"][g.rng.below(3)].to_string() } else { format!("{} > {}", ["§", "sh", "ñ", "x"][g.rng.below(4)], ["ʃ", "ɲ", "x", "a:[+long]"][g.rng.below(4)]) }); }
         for _ in 0..g.rng.below(3) { from.push(["ʃ > sh", "$ > *", "[+nasal] > +~", "a:[+long] > â", "ŋ > ng"][g.rng.below(5)].to_string()); }
     }
     Project { groups, words, into, from, has_alias }
